@@ -1033,7 +1033,7 @@ def through_tuple(body, place):
     return ({'c': [q[0], list(q[1]) + list(rest)]}, rest)
 
 
-def direct_field(body, operand, max_hops=4):
+def direct_field(body, operand, max_hops=9):
     """If `operand` is (a copy of) a direct read of a struct field, return (field name, owner ADT, negated?)"""
     neg = False
     op = operand
